@@ -119,31 +119,26 @@ def _rp_post(srcports, dstports, line, platform, port_nr, port_count, port_range
     platform = platform or "ios"
     if platform not in ("ios", "nxos"):
         return True
-    n_src = None
     lines = list(result)
-    # source lines come first; split by which side differs from the template
-    tsem = reader.read_ace(line)
-    src_lines, dst_lines = [], []
-    for ln in lines:
-        try:
-            sem = reader.read_ace(ln)
-        except reader.ReadError:
-            src_lines.append(ln) if srcports and not dstports else dst_lines.append(ln)
-            continue
-        same_s = (sem["sport"] and sem["sport"][2]) == (tsem["sport"] and tsem["sport"][2])
-        if srcports and not dstports:
-            src_lines.append(ln)
-        elif dstports and not srcports:
-            dst_lines.append(ln)
-        elif not same_s:
-            src_lines.append(ln)
-        else:
-            dst_lines.append(ln)
-    problems = []
-    if srcports or src_lines:
-        problems += _judge_side(src_lines, line, "src", srcports, platform, port_nr, int(port_count or 1), port_range)
-    if dstports or dst_lines:
-        problems += _judge_side(dst_lines, line, "dst", dstports, platform, port_nr, int(port_count or 1), port_range)
+    count = int(port_count or 1)
+    if srcports and dstports:
+        # the function returns the source lines first, then the destination lines; a line identical to the template can be
+        # either, so every split point is tried and the reading with the fewest problems is judged
+        best = None
+        for cut in range(len(lines) + 1):
+            probs = (_judge_side(lines[:cut], line, "src", srcports, platform, port_nr, count, port_range) +
+                     _judge_side(lines[cut:], line, "dst", dstports, platform, port_nr, count, port_range))
+            if best is None or len(probs) < len(best):
+                best = probs
+            if not probs:
+                break
+        problems = best or []
+    elif srcports:
+        problems = _judge_side(lines, line, "src", srcports, platform, port_nr, count, port_range)
+    elif dstports:
+        problems = _judge_side(lines, line, "dst", dstports, platform, port_nr, count, port_range)
+    else:
+        problems = [f"lines generated without a request: {lines[:3]}"] if lines else []
     for prob in problems:
         FOUND.append({"what": "range_ports lines do not cover exactly the requested ports / break the line contract",
                       "detail": prob})
